@@ -15,6 +15,8 @@ PlansRoute == {[c1 |-> <<R("s1"), R("s1")>>, c2 |-> <<R("s1")>>],
 PlansRouteMeta == {[c1 |-> <<R("s1"), R("s1")>>, c2 |-> <<M("k1"), R("s1")>>]}
 PlansRoute3 == {[c1 |-> <<R("s1"), R("s3")>>, c2 |-> <<R("s3"), R("s1")>>, c3 |-> <<R("s1")>>]}
 PlansMix == PlansMeta2 \cup PlansRoute \cup PlansRouteMeta
+PlansCallers == PlansMeta2 \cup PlansMeta3
+PlansRouteAll == PlansRoute \cup PlansRouteMeta
 
 \* reachability (vacuity guard): TLC must VIOLATE each of these
 Never_hit == \A x \in DOMAIN S.g : ~(S.g[x].pc = "done" /\ S.g[x].res.t = "ok" /\ ~S.g[x].own)
